@@ -110,8 +110,22 @@ def optimizer_rule(ctx, py, ci, mf, where):
         fwd = [s for s in rec['subcalls'] if s[0] == mf.meth]
         if any(s[1] != want_args for s in fwd):
             probs.append('forwards different arguments to the wrapped interpreter')
-        nonempty = any((c == ('call', ('name', 'len'), (('param', 'delta'),), ()) or c == ('param', 'delta')) and b is True
-                       for c, b in rec['conds'])
+        LEN = ('call', ('name', 'len'), (('param', 'delta'),), ())
+
+        def says_nonempty(c, b):
+            # len(delta) / delta (truth value) holds; len(delta) == 0 / not delta refuted; len(delta) != 0 / > 0 / >= 1 holds
+            if c in (LEN, ('param', 'delta')):
+                return b is True
+            if isinstance(c, tuple) and c[:1] == ('cmp',) and len(c) == 4 and c[2] == LEN and c[3][0] == 'const':
+                op, k = c[1], c[3][1]
+                if (op, k) in (('==', 0), ('<=', 0), ('<', 1)):
+                    return b is False
+                if (op, k) in (('!=', 0), ('>', 0), ('>=', 1)):
+                    return b is True
+            if isinstance(c, tuple) and c[:2] == ('unop', 'Not') and c[2] in (LEN, ('param', 'delta')):
+                return b is False
+            return False
+        nonempty = any(says_nonempty(c, b) for c, b in rec['conds'])
         if fwd and not nonempty:
             probs.append('forwards without testing that the map is non-empty')
         if nonempty and len(fwd) != 1:
